@@ -27,6 +27,7 @@ PROVED = {
     'AccountStorage': ('account', 'AccountStorage', 'c16_src_AccountStorage', 'blk'),
     'Account': ('account', 'Account', 'c16_src_Account', 'blk'),
     'ShardAccount': ('account', 'ShardAccount', 'c16_src_ShardAccount', 'blk'),
+    'ValidatorSet': ('config', 'ValidatorSet', 'c16_src_ValidatorSet', 'blk'),
 }
 N_VALIDATE = {'BlockInfo': 16, 'ConsensusConfig': 12}
 
